@@ -5,7 +5,7 @@ CONSTANTS
   Catalog <- CatB
   Comp <- CompB
   UseComp = TRUE
-  MaxRx = 2
+  MaxRx = 1
   AllowDup = FALSE
   Modes <- Modes_B
   MaxSys = 1
